@@ -45,10 +45,11 @@ VARIABLES
              \* while the old connection is half-open supersedes it: QueueInner::insert with a key that is still present)
   sgen,      \* sgen[k]: generation of the stream object stored in the map under k
   cgen,      \* generation of the checked-out stream
-  nreins     \* number of superseding inserts so far
+  nreins,    \* number of superseding inserts so far
+  told       \* keys whose end the owner of the queue was told about (FairQueue::on_stream_end -> peer_disconnected)
 
 vars == <<heap, streams, counter, wslot, wcur, pc, cur, avail, left, closed, reg, fire, notified, joined,
-          removed, delivered, wait, stale, live, npend, exh, nexh, had, conn, sgen, cgen, nreins>>
+          removed, delivered, wait, stale, live, npend, exh, nexh, had, conn, sgen, cgen, nreins, told>>
 gv == <<conn, sgen, cgen, nreins>>
 xv == <<live, npend, exh, nexh, had, gv>>
 
@@ -64,7 +65,7 @@ Init ==
   /\ reg = [k \in Keys |-> 0] /\ fire = [k \in Keys |-> FALSE] /\ notified = FALSE /\ joined = {}
   /\ removed = {} /\ delivered = [k \in Keys |-> 0] /\ wait = [k \in Keys |-> 0] /\ stale = 0
   /\ live = [k \in Keys |-> 0] /\ npend = 0 /\ exh = FALSE /\ nexh = 0 /\ had = [k \in Keys |-> {}]
-  /\ conn = [k \in Keys |-> 0] /\ sgen = [k \in Keys |-> 0] /\ cgen = 0 /\ nreins = 0
+  /\ conn = [k \in Keys |-> 0] /\ sgen = [k \in Keys |-> 0] /\ cgen = 0 /\ nreins = 0 /\ told = {}
 
 \* ---- other threads ---------------------------------------------------------------------------
 Insert(k) ==       \* QueueInner::insert under the lock (peer_connected)
@@ -77,6 +78,7 @@ Insert(k) ==       \* QueueInner::insert under the lock (peer_connected)
   /\ notified' = IF "insert_no_wake" \in Dev THEN notified ELSE (notified \/ Wakes)  \* wake_by_ref, slot kept
   /\ UNCHANGED <<wslot, pc, cur, avail, left, closed, reg, fire, removed, delivered, wait, stale, npend, exh, nexh, had, gv>>
   /\ UNCHANGED wcur
+  /\ UNCHANGED told
 
 Reinsert(k) ==     \* QueueInner::insert for a key that is still registered: a newer connection supersedes the old one
   /\ nreins < MaxReins /\ k \in joined \ removed /\ counter < MaxTicket /\ ~closed[k]
@@ -91,6 +93,7 @@ Reinsert(k) ==     \* QueueInner::insert for a key that is still registered: a n
   /\ wait' = [wait EXCEPT ![k] = 0]                                                 \* a new connection: its waiting starts now
   /\ UNCHANGED <<wslot, pc, cur, left, closed, joined, removed, delivered, stale, npend, exh, nexh, had, cgen>>
   /\ UNCHANGED wcur
+  /\ UNCHANGED told
 
 Produce(k) ==      \* bytes of one more complete message arrive on k's transport
   /\ k \in joined /\ left[k] > 0 /\ ~closed[k]
@@ -99,6 +102,7 @@ Produce(k) ==      \* bytes of one more complete message arrive on k's transport
   /\ fire' = [fire EXCEPT ![k] = (reg[k] # 0)]
   /\ UNCHANGED <<heap, streams, counter, wslot, pc, cur, closed, reg, notified, joined, removed, delivered, wait, stale, xv>>
   /\ UNCHANGED wcur
+  /\ UNCHANGED told
 
 Close(k) ==
   /\ k \in joined /\ ~closed[k]
@@ -106,6 +110,7 @@ Close(k) ==
   /\ fire' = [fire EXCEPT ![k] = (reg[k] # 0)]
   /\ UNCHANGED <<heap, streams, counter, wslot, pc, cur, avail, left, reg, notified, joined, removed, delivered, wait, stale, xv>>
   /\ UNCHANGED wcur
+  /\ UNCHANGED told
 
 \* StreamWaker::wake_by_ref with ticket t: queue the event unless k already has a valid one
 WakePush(k, t) ==
@@ -122,6 +127,7 @@ Fire(k) ==         \* StreamWaker::wake_by_ref, under the queue lock
   /\ wslot' = IF "waker_not_taken" \in Dev THEN wslot ELSE FALSE      \* waker.take()
   /\ UNCHANGED <<streams, counter, pc, cur, avail, left, closed, joined, removed, delivered, wait, stale, npend, exh, nexh, had, gv>>
   /\ UNCHANGED wcur
+  /\ UNCHANGED told
 
 \* a source wakes an old clone of a StreamWaker again (late, duplicate or spurious wake-up: allowed by the waker
 \* contract; tokio does it when readiness arrives between registering the waker and re-checking)
@@ -133,6 +139,7 @@ StaleFireT(k, t) ==
   /\ wslot' = FALSE
   /\ UNCHANGED <<streams, counter, pc, cur, avail, left, closed, reg, fire, joined, removed, delivered, wait, npend, exh, nexh, had, gv>>
   /\ UNCHANGED wcur
+  /\ UNCHANGED told
 StaleFire(k) == \E t \in had[k] : StaleFireT(k, t)
 
 Exhaust ==         \* the receiver task's cooperative budget runs out in the middle of a call
@@ -140,6 +147,7 @@ Exhaust ==         \* the receiver task's cooperative budget runs out in the mid
   /\ exh' = TRUE /\ nexh' = nexh + 1
   /\ UNCHANGED <<heap, streams, counter, wslot, wcur, pc, cur, avail, left, closed, reg, fire, notified, joined, removed,
                  delivered, wait, stale, live, npend, had, gv>>
+  /\ UNCHANGED told
 
 Remove(k) ==       \* QueueInner::remove (peer_disconnected); only while k is not checked out
   /\ AllowRemove /\ k \in streams
@@ -147,6 +155,7 @@ Remove(k) ==       \* QueueInner::remove (peer_disconnected); only while k is no
   /\ removed' = removed \cup {k}
   /\ UNCHANGED <<heap, counter, wslot, pc, cur, avail, left, closed, reg, fire, notified, joined, delivered, wait, stale, xv>>
   /\ UNCHANGED wcur
+  /\ UNCHANGED told
 
 \* ---- receiver task ---------------------------------------------------------------------------
 Begin ==           \* application calls recv / executor re-polls after a wake
@@ -156,11 +165,13 @@ Begin ==           \* application calls recv / executor re-polls after a wake
   /\ npend' = 0 /\ exh' = FALSE                     \* a new poll of the task: fresh budget
   /\ UNCHANGED <<heap, streams, counter, wslot, cur, avail, left, closed, reg, fire, joined, removed, delivered, wait, stale, live, nexh, had, gv>>
   /\ UNCHANGED wcur
+  /\ UNCHANGED told
 
 Cancel ==          \* the recv future is dropped while parked (select!, timeout, proxy); the next call has a new waker
   /\ pc = "parked"
   /\ pc' = "idle" /\ wcur' = FALSE
   /\ UNCHANGED <<heap, streams, counter, wslot, cur, avail, left, closed, reg, fire, notified, joined, removed, delivered, wait, stale, xv>>
+  /\ UNCHANGED told
 
 L1 ==              \* first critical section of one loop iteration (pop_event discards stale entries one by one)
   /\ pc = "l1"
@@ -178,6 +189,7 @@ L1 ==              \* first critical section of one loop iteration (pop_event di
                          ELSE /\ UNCHANGED <<streams, cur>> /\ pc' = "l1"
   /\ cgen' = IF pc' = "poll" THEN sgen[cur'[2]] ELSE cgen
   /\ UNCHANGED <<counter, avail, left, closed, reg, fire, notified, joined, removed, delivered, wait, stale, npend, exh, nexh, had, conn, sgen, nreins>>
+  /\ UNCHANGED told
 
 PollStream ==      \* stream polled outside the lock with StreamWaker(cur)
   /\ pc = "poll"
@@ -195,10 +207,12 @@ PollStream ==      \* stream polled outside the lock with StreamWaker(cur)
             /\ IF avail[k] > 0
                  THEN /\ avail' = [avail EXCEPT ![k] = @ - 1] /\ pc' = "l2" /\ UNCHANGED <<reg, fire, cur>>
                  ELSE IF closed[k]
-                   THEN /\ pc' = "l1" /\ cur' = <<>> /\ UNCHANGED <<avail, reg, fire>>   \* Ready(None): drop stream
+                   THEN /\ pc' = "l1" /\ cur' = <<>> /\ UNCHANGED <<avail, reg, fire>>   \* Ready(None): drop stream, tell the owner
                    ELSE /\ reg' = [reg EXCEPT ![k] = cur[1] + 1] /\ fire' = [fire EXCEPT ![k] = FALSE]
                         /\ pc' = "l3" /\ UNCHANGED <<avail, cur>>
   /\ had' = IF MaxStale > 0 THEN [had EXCEPT ![cur[2]] = @ \cup {cur[1]}] ELSE had    \* (not tracked where no stale wake can use it)
+  \* on_stream_end(key), unless a newer connection registered under the key while this stream was being polled
+  /\ told' = IF pc' = "l1" /\ cgen = conn[cur[2]] /\ "end_not_reported" \notin Dev /\ cur[2] \notin streams THEN told \cup {cur[2]} ELSE told
   /\ UNCHANGED <<streams, counter, left, closed, joined, removed, delivered, wait, stale, npend, exh, nexh, gv>>
   /\ UNCHANGED wcur
 
@@ -218,6 +232,7 @@ L2 ==              \* Ready(Some): re-queue with a fresh ticket, put the stream 
   /\ counter' = counter + 1 /\ cur' = <<>> /\ pc' = "idle"
   /\ wcur' = FALSE                                   \* the call returns: its future (and waker) is finished
   /\ UNCHANGED <<wslot, avail, left, closed, reg, fire, notified, joined, removed, stale, npend, exh, nexh, had, conn, cgen, nreins>>
+  /\ UNCHANGED told
 
 L3 ==              \* Pending: put the stream back; continue with the next event, or yield once every stream had a turn
   /\ pc = "l3"
@@ -229,6 +244,7 @@ L3 ==              \* Pending: put the stream back; continue with the next event
        ELSE /\ pc' = "l1" /\ UNCHANGED notified
   /\ UNCHANGED <<heap, counter, wslot, avail, left, closed, reg, fire, joined, removed, delivered, wait, stale, live, exh, nexh, had, conn, cgen, nreins>>
   /\ UNCHANGED wcur
+  /\ UNCHANGED told
 
 Receiver == Begin \/ L1 \/ PollStream \/ L2 \/ L3
 Other == (\E k \in Keys : Insert(k) \/ Reinsert(k) \/ Produce(k) \/ Close(k) \/ Fire(k) \/ StaleFire(k) \/ Remove(k)) \/ Exhaust
@@ -259,6 +275,11 @@ ReadyHasSignal == \A k \in joined : (k \in streams /\ avail[k] > 0) => (HasEv(k)
 
 \* one valid event per key: live[k] names an entry that is really in the heap
 LiveInHeap == \A k \in Keys : live[k] # 0 => \E e \in heap : e[2] = k /\ e[1] = live[k] - 1
+
+\* an orderly close produces no error item: the owner of the queue learns of it through the hook, for every connection
+\* whose stream the queue has dropped because it ended
+EndReported == \A k \in joined \ removed :
+   (closed[k] /\ avail[k] = 0 /\ k \notin streams /\ ~(cur # <<>> /\ cur[2] = k)) => k \in told
 
 \* one call of poll_next polls at most (streams + 1) streams that answer Pending before it gives control back
 YieldBound == npend <= Cardinality(Keys) + 1
